@@ -81,6 +81,12 @@ type Instance interface {
 	Close()
 }
 
+// Finalizer is an optional extension: Final is called after the last Apply of an execution and before
+// Close; it may stop the implementation and judge what is left behind (timers, goroutines).
+type Finalizer interface {
+	Final() []Viol
+}
+
 type Spec struct {
 	Prop     string
 	Scenario string
@@ -173,6 +179,9 @@ func serve(spec Spec, j job, send func(reply)) {
 	events := 0
 	if j.Confirm {
 		inst, last := replay(spec, j.Hist)
+		if f, ok := inst.(Finalizer); ok {
+			last.Viols = append(last.Viols, f.Final()...)
+		}
 		inst.Close()
 		send(reply{ID: j.ID, Done: true, Viol: last.Viols, Events: len(j.Hist)})
 		return
@@ -190,6 +199,9 @@ func serve(spec Spec, j job, send func(reply)) {
 		r := cur.Apply(ev)
 		events++
 		s := &succ{Ev: ev, Key: hashStr(cur.Key()), Obs: hashStr(r.Obs), Viol: r.Viols, Tags: r.Tags}
+		if f, ok := cur.(Finalizer); ok {
+			s.Viol = append(s.Viol, f.Final()...)
+		}
 		cur.Close()
 		nondet := ""
 		if j.Check && i == 0 {
